@@ -110,9 +110,10 @@ def bed6_rec(i, w):
     chrom, name = "c" + _name(i, _w(i, w)), _name(i, _w(i, (w + 1) % 3))
     start = i * 10 ** w
     stop = start + 1 + i
-    score = (i * 7) % 1000
+    # scores: multi-digit, one digit, and the '.' placeholder (read as 0) so that chunks can hold '.' next to one-character values only
+    score = [(i * 7) % 1000 + 10, (i * 3) % 9 + 1, ".", (i * 7) % 1000][i % 4]
     strand = "+-."[i % 3]
-    return ["\t".join([chrom, str(start), str(stop), name, str(score), strand])], [chrom, start, stop, name, score, strand]
+    return ["\t".join([chrom, str(start), str(stop), name, str(score), strand])], [chrom, start, stop, name, 0 if score == "." else score, strand]
 
 
 def bdg_rec(i, w):
